@@ -485,9 +485,9 @@ impl<'a> History<'a> {
 
 	/// M-excl idempotence clause: a repeated step with the same slate is refused or has no further effect
 	fn judge_repeat(&mut self, what: &str, wi: usize, before: (usize, usize, usize, u64), ok: bool, same_account: bool) {
-		if !same_account {
-			return; // "the same step" means same slate to the same account
-		}
+		// (a repeat that names another account of the same wallet is still a repeat of the step with the same
+		// slate: the callers give it its own label)
+		let _ = same_account;
 		let after = self.counts(wi);
 		self.stat(&format!("repeat:{}:{}", what, if ok { "ok" } else { "refused" }));
 		if ok {
@@ -579,7 +579,7 @@ impl<'a> History<'a> {
 		if repeat && !self.cfg.duplicates {
 			return;
 		}
-		// sometimes deliver to the other account (don't-care for idempotence)
+		// sometimes deliver to the other account
 		let acct = if repeat && rng.chance(1, 5) {
 			self.accts[f.payee].iter().find(|a| **a != f.payee_acct).cloned().unwrap_or(f.payee_acct.clone())
 		} else {
@@ -588,7 +588,7 @@ impl<'a> History<'a> {
 		let before = self.counts(f.payee);
 		let r = self.w.wallets[f.payee].receive(f.s1.as_ref().unwrap(), Some(&acct));
 		if repeat {
-			self.judge_repeat("receive_tx", f.payee, before, r.is_ok(), acct == f.payee_acct);
+			self.judge_repeat(if acct == f.payee_acct { "receive_tx" } else { "receive_tx(into-another-account)" }, f.payee, before, r.is_ok(), acct == f.payee_acct);
 		}
 		match &r {
 			Ok(s2) => {
@@ -614,18 +614,32 @@ impl<'a> History<'a> {
 			return;
 		}
 		self.set_acct(f.payer, &f.payer_acct);
+		// a repeat sometimes names another account of the payer as the source
+		let other_src = if repeat && f.locked && rng.chance(1, 4) { self.accts[f.payer].iter().find(|a| **a != f.payer_acct).cloned() } else { None };
 		let args = InitTxArgs {
 			amount: 0,
 			minimum_confirmations: f.minconf,
 			num_change_outputs: *rng.pick(&[1u32, 2]),
 			selection_strategy_is_use_all: rng.bool(),
+			src_acct_name: other_src.clone(),
 			..Default::default()
 		};
 		let before = self.counts(f.payer);
 		let r = self.w.wallets[f.payer].process_invoice(f.s1.as_ref().unwrap(), args);
 		if repeat && f.locked {
 			// the duplicate check of process_invoice_tx looks at the log entry created by the lock step
-			self.judge_repeat("process_invoice_tx", f.payer, before, r.is_ok(), true);
+			if let (Some(src), Ok(again)) = (other_src.as_ref(), r.as_ref()) {
+				// accepted: the reserve step that follows a processed invoice then shows whether it had an effect
+				let r2 = self.w.wallets[f.payer].lock_outputs(again);
+				self.judge_repeat("process_invoice_tx+tx_lock_outputs(from-another-account)", f.payer, before, r2.is_ok(), true);
+				if r2.is_ok() {
+					self.set_acct(f.payer, src);
+					let _ = self.w.wallets[f.payer].cancel(None, Some(f.id));
+					self.set_acct(f.payer, &f.payer_acct);
+				}
+			} else {
+				self.judge_repeat(if other_src.is_some() { "process_invoice_tx(from-another-account)" } else { "process_invoice_tx" }, f.payer, before, r.is_ok(), true);
+			}
 		}
 		match &r {
 			Ok(s2) => {
